@@ -143,10 +143,12 @@ Definition tagjob_ok (st : state) : Prop :=
     bounded (next st) (tj_m j) /\ bounded (next st) (tj_u j) /\
     (forall x, bounded (next st) (lookupN x (tj_snap j))) /\
     (clean st j = true -> exists ot i, tget (tj_name j) (tags st) = Some ot /\ mem i (t_u ot) = true) /\
-    (dirty_of st = false -> forall x, In x (d_refs (tj_def j)) -> tu x (tags st) = 0).
+    (dirty_of st = false -> forall x, In x (d_refs (tj_def j)) -> tu x (tags st) = 0) /\
+    (forall res, tj_res j = Some res -> bounded (next st) res).
 
 Definition convs_ok (st : state) : Prop :=
-  NoDup (convs st) /\ forall j, jconv st = Some j -> NoDup (map fst (cj_sets j)).
+  NoDup (convs st) /\ forall j, jconv st = Some j ->
+    NoDup (map fst (cj_sets j)) /\ (cj_done j = true -> forall cs, In cs (cj_sets j) -> bounded (cj_next j) (snd cs)).
 
 Definition mergejob_ok (st : state) : Prop :=
   forall j, jmerge st = Some j -> (2 <= length (mj_idx j))%nat /\ (mj_off j + length (mj_idx j) <= length (idx st))%nat /\
@@ -157,7 +159,8 @@ Definition Tinv (st : state) : Prop :=
   tags_bounded (next st) (tags st) /\
   bounded (next st) (m_upd st) /\ bounded (next st) (m_rst st) /\ bounded (next st) (m_add st) /\
   closed (next st) (tags st) /\
-  tagjob_ok st /\ covered st /\ Cinv st /\ convs_ok st /\ mergejob_ok st.
+  tagjob_ok st /\ covered st /\ Cinv st /\ convs_ok st /\ mergejob_ok st /\
+  (forall n r, jimp st = Some (mkImp n (Some r)) -> resp_t st r).
 
 (* on a closed, bounded tag list inheritTagUncertainty changes nothing *)
 Definition u_bounded (nx : N) (ts : tags_t) : Prop := forall n t, In (n, t) ts -> bounded nx (t_u t).
@@ -507,7 +510,7 @@ Proof. intros J D. simpl. rewrite J, D. reflexivity. Qed.
 Lemma dec_bconv st p j : Cinv st -> convs_ok st -> jconv st = Some j -> cj_done j = false ->
   lexlt (mu (step repaired p ABodyConvert st)) (mu st).
 Proof.
-  intros (CA & CB & _) (ND & NJ) J D. destruct (CB j J) as (LN & MC & _). specialize (NJ j J).
+  intros (CA & CB & _) (ND & NJ0) J D. destruct (CB j J) as (LN & MC & _). destruct (NJ0 j J) as (NJ & _).
   rewrite (bconv_eq st p j J D). set (st' := bconv_state st j). set (sets' := bconv_sets st j).
   assert (forall i, doomed st' i = doomed st i) as DM by (intros i; unfold doomed, st', bconv_state; simpl; rewrite J; reflexivity).
   assert (forall c i, cache st' c i = match cache st c i with Some v => Some v
@@ -824,7 +827,7 @@ Proof.
   assert (c_e3 pre = c_e3 st) as -> by (apply c_e3_frame; try assumption; intros i; unfold doomed; rewrite F7, F8; reflexivity).
   assert (c_p pre = c_p st) as -> by (unfold c_p; rewrite F7; reflexivity).
   do 3 apply lex_tl.
-  destruct (TJ _ J) as (_ & _ & _ & TU & TR). simpl in TU, TR.
+  destruct (TJ _ J) as (_ & _ & _ & TU & TR & _). simpl in TU, TR.
   unfold c_z at 1. rewrite J.
   destruct (clean st (mkTj n d m0 u0 cv snap h (Some res))) eqn:CLN; [|apply lex_hd; [lia|reflexivity]].
   apply lex_tl.
@@ -879,4 +882,69 @@ Proof.
     pose proof (count_tset n tp ot (tags st) So In_n) as CT.
     assert (uncertain (n, ot) = true) as UO by (unfold uncertain; simpl; rewrite Ln, (ne0_of_mem iu _ Hu); reflexivity).
     specialize (CT UO eq_refl). lia.
+Qed.
+
+
+(* ---------------------------------------------------------------- every firing job step decreases the measure *)
+Theorem jstep_decreases st st' : Tinv st -> jstep st st' -> lexlt (mu st') (mu st).
+Proof.
+  intros TI (p & a & En & ->). pose proof TI as (_ & _ & _ & _ & _ & _ & _ & _ & _ & _ & CI & CO & MO & IT).
+  destruct a; try (destruct En; fail).
+  - destruct En as ((n & J) & _). eapply dec_bimp; exact J.
+  - destruct En as (j & J & R). eapply dec_btag; eassumption.
+  - destruct En as (j & J & D). eapply dec_bconv; eassumption.
+  - destruct En as (j & J & R). eapply dec_bmerge; eassumption.
+  - destruct k; simpl in En.
+    + destruct En as (n & r & J). eapply dec_cimp; [exact J|]. exact (proj1 (IT n r J)).
+    + destruct En as (j & res & J & R). destruct j; simpl in R; subst. eapply dec_ctag; [exact TI|exact J].
+    + destruct En as (j & J & D). destruct j; simpl in D; subst. eapply dec_cconv; [exact TI|exact J].
+    + destruct En as (j & m & J & R). eapply dec_cmerge; eassumption.
+Qed.
+
+(* ---------------------------------------------------------------- helper facts for the preservation of Tinv *)
+Lemma u_bounded_inherit nx ts : u_bounded nx ts -> u_bounded nx (inherit (ones nx) ts).
+Proof.
+  induction ts as [|[k t] r IH]; simpl; intros B; [exact B|].
+  assert (u_bounded nx r) as Br by (intros n0 t0 I; apply (B n0 t0); right; exact I).
+  intros n0 t0 [E|I]; [|apply (IH Br n0 t0 I)]. inversion E; subst; clear E.
+  rewrite inherit_one_u. destruct (existsb _ _); [apply ones_bounded|].
+  intros i H. rewrite fold_union_mem in H. apply orb_true_iff in H. destruct H as [H|H].
+  - apply (B n0 t (or_introl eq_refl)). exact H.
+  - apply existsb_exists in H. destruct H as (x & _ & Hm). apply (tu_bounded nx (inherit (ones nx) r) x (IH Br)). exact Hm.
+Qed.
+
+Lemma m_same_grow nx a b : Forall2 (grow1 nx) a b -> forall n t', In (n, t') b -> exists t, In (n, t) a /\ t_m t = t_m t' /\ t_def t = t_def t' /\ t_live t = t_live t'.
+Proof.
+  intros H n t' I. destruct (Forall2_In_r _ _ _ _ H I) as ([k t] & I0 & ((E1 & E2 & E3) & E4 & _)). simpl in *. subst k.
+  exists t. auto.
+Qed.
+
+Lemma tb_from nx nx' a b : nx <= nx' -> tags_bounded nx a -> Forall2 (grow1 nx') a b -> u_bounded nx' b -> tags_bounded nx' b.
+Proof.
+  intros L TB G UB n t' I. split; [apply (UB n t' I)|].
+  destruct (m_same_grow _ _ _ G n t' I) as (t & I0 & EM & _). rewrite <- EM. eapply bounded_mono; [exact L|]. exact (proj2 (TB n t I0)).
+Qed.
+
+Lemma ub_map_inval k nx nx' u r a ts : nx <= nx' -> u_bounded nx ts -> bounded nx' u -> bounded nx' r -> bounded nx' a ->
+  u_bounded nx' (map (fun nt => (fst nt, invalidate_one k (ones nx') u r a (snd nt))) ts).
+Proof.
+  intros L UB Bu Br Ba n t I. apply in_map_iff in I. destruct I as ([k0 t0] & E & I0). simpl in E. inversion E; subst; clear E.
+  pose proof (bounded_mono _ _ _ L (UB n t0 I0)) as B0. unfold invalidate_one.
+  destruct (negb (t_live t0)); [exact B0|]. destruct (d_sub (t_def t0)); [apply ones_bounded|].
+  destruct (d_idonly (t_def t0)); [destruct (kf_idonly k); [exact B0|apply union_bounded; assumption]|].
+  simpl. destruct (d_datatime (t_def t0)); repeat apply union_bounded; assumption.
+Qed.
+
+Lemma ub_data_tags nx s ts : u_bounded nx ts -> bounded nx s -> u_bounded nx (data_tags_uncertain s ts).
+Proof.
+  intros UB Bs n t I. unfold data_tags_uncertain in I. apply in_map_iff in I. destruct I as ([k0 t0] & E & I0). simpl in E. inversion E; subst; clear E.
+  destruct (d_data (t_def t0)); [simpl; apply union_bounded; [exact (UB n t0 I0)|exact Bs]|exact (UB n t0 I0)].
+Qed.
+
+Lemma deadok_data_tags s ts : deadok ts -> deadok (data_tags_uncertain s ts).
+Proof.
+  intros D n t I L. unfold data_tags_uncertain in I. apply in_map_iff in I. destruct I as ([k0 t0] & E & I0). simpl in E. inversion E; subst; clear E.
+  destruct (d_data (t_def t0)) eqn:DD.
+  - simpl in L. destruct (D n t0 I0 L) as (_ & _ & D0). congruence.
+  - exact (D n t0 I0 L).
 Qed.
